@@ -109,8 +109,8 @@ RHN = ["X-A", "x-a", "B", "Set-Cookie", "Cache-Control", "Content-Type", "Conten
 def random_trace(args):
     tid, seed = args
     rng = random.Random(seed)
-    cfg = {"proto": rng.choice(["http", "http", "https"])}
-    real = WsgiReal(cfg, variant=rng.randrange(16))
+    cfg = {"proto": rng.choice(["http", "http", "https"]), "variant": rng.randrange(16)}
+    real = WsgiReal(cfg, variant=cfg["variant"])
     ev = []
     try:
         for _ in range(rng.choice([1, 2, 3, 5])):
@@ -182,8 +182,14 @@ def replay(ctx, rec):
         print("replay:", "diverges " + framework.jdump(r) if r else "follows the specification")
         return 1 if r else 0
     if "trace" in d:
-        v = ctx.validate("httpm", "Trace_Wsgi", "Trace_Wsgi.cfg", [d["trace"]], sig_fn=_c2s_sig)
-        bad = v[d["trace"]["id"]]
+        t = d["trace"]
+        real = WsgiReal(t["cfg"], variant=t["cfg"].get("variant", 0))    # re-execute the recorded inputs
+        try:
+            t = {"id": t["id"], "cfg": t["cfg"], "ev": [{"a": e["a"], "args": e["args"], "obs": canon(real.step(e["a"], e["args"]))} for e in t["ev"]]}
+        finally:
+            real.close()
+        v = ctx.validate("httpm", "Trace_Wsgi", "Trace_Wsgi.cfg", [t], sig_fn=_c2s_sig)
+        bad = v[t["id"]]
         print("replay:", "rejected at event %d: %s" % (bad["at"], framework.jdump(bad["event"])) if bad else "accepted by the specification")
         return 1 if bad else 0
     print("replay: specification-level counterexample (re-run ./check C47)")
